@@ -695,3 +695,42 @@ func localFresh(v ssa.Value) bool {
 	}
 	return false
 }
+
+// ruleR3Weights — the map of initializers, which the shape validator consults to decide which inputs
+// may be omitted, is never written after construction (C13).
+func ruleR3Weights(c *Ctx, prop string) {
+	ef := c.effects()
+	n := 0
+	for _, s := range ef.real.sites {
+		if !isLibFn(s.fn) || s.levels != "C" {
+			continue
+		}
+		t := siteTokens(ef.real, s)
+		has := false
+		for k := range t {
+			if rootOf(k) == "Weights" && lvl(k) == 'C' {
+				has = true
+			}
+		}
+		if !has {
+			continue
+		}
+		n++
+		c.add(Obligation{Rule: "R3", Key: fmt.Sprintf("R3:weights-map:%s:%s#%d", fname(s.fn), s.what, s.ord), Site: c.pos(s.instr.Pos()), Status: StViolated,
+			Why:  s.what + " writes into the model's map of initializers: names stored there are treated as initializers by the shape validator, which then no longer requires or checks them on later Runs",
+			Path: c.witness(ef.entries, s.fn)})
+	}
+	if n == 0 {
+		c.discharge("R3", "R3:weights-map", "", fmt.Sprintf("%d container-level write sites in the library; none can reach Model.parameters", countLevelC(ef.real)))
+	}
+}
+
+func countLevelC(r *e2Result) int {
+	n := 0
+	for _, s := range r.sites {
+		if s.levels == "C" {
+			n++
+		}
+	}
+	return n
+}
